@@ -29,7 +29,8 @@ def build_file(g, d, n=1500, with_edges=None, name='ev.fits', energy_inside=None
     ra = RA0 + g.normal(0, 0.04, n) / numpy.cos(numpy.radians(DEC0))
     dec = DEC0 + g.normal(0, 0.04, n)
     path = os.path.join(d, name)
-    evfile.write_event_file(path, t, pi=pi, phi=g.uniform(-3.1, 3.1, n), ra=ra, dec=dec, w=g.uniform(0.1, 1., n),
+    # the true (Monte Carlo) energies are not the measured ones: another energy layer for most events when a product is asked for `--mc True`
+    evfile.write_event_file(path, t, pi=pi, phi=g.uniform(-3.1, 3.1, n), ra=ra, dec=dec, w=g.uniform(0.1, 1., n), mc_energy=g.uniform(1.2, 9.5, n),
                             tstart=tstart, tstop=tstop, tag=numpy.arange(1, n + 1), ra0=RA0, dec0=DEC0, irfname=IRF)
     phase = (g.integers(0, 2 ** 8 + 1, n) / 2 ** 8).astype(numpy.float32)      # multiples of 1/256 incl. exactly 0 and 1: on the edges of 2^k phase bins
     with fits.open(path) as h:
@@ -51,6 +52,7 @@ def file_cols(path):
     c = dict(time=numpy.array(f.time_data(), dtype=float), phase=numpy.array(f.phase_data(), dtype=float), pi=numpy.array(f.pi_data(), dtype=float),
              energy=numpy.array(f.energy_data(), dtype=float), ra=numpy.array(ra, dtype=float), dec=numpy.array(dec, dtype=float),
              q=numpy.array(f.q_data(), dtype=float), u=numpy.array(f.u_data(), dtype=float), w=numpy.array(f.event_data['W_MOM'], dtype=float),
+             mc_energy=numpy.array(f.energy_data(True), dtype=float),
              livetime=f.livetime(), n=f.num_events())
     f.close()
     return c
@@ -196,6 +198,19 @@ def explore(chk, budget=1):
         chk.case(dict(op='PCUBE-wide', edges=wide, events_per_bin=[int(x) for x in expw]), nontrivial=bool(expw[0] > 0 and expw[-1] > 0))
         if not numpy.array_equal(cw['COUNTS'].astype(int), expw):
             chk.fail('impl', 'PCUBE COUNTS %s on the edges %s differ from the events in each (emin, emax] bin %s' % (cw['COUNTS'], wide, expw), dict(oracle='PCUBE-wide', edges=wide))
+        # a fine binning over the sparse high-energy tail: many bins hold a single event (or none) — each event still sits in exactly one bin
+        cfine = cube('--ebinalg', 'LIN', '--emin', 8., '--emax', 13., '--ebins', 125)
+        cone = cube('--ebinalg', 'LIST', '--ebinning', '[8., 13.]')
+        ef = [float(cfine['ENERG_LO'][0])] + [float(x) for x in cfine['ENERG_HI']]
+        expf = numpy.array([((c['energy'] > a) & (c['energy'] <= b)).sum() for a, b in zip(ef[:-1], ef[1:])])
+        chk.case(dict(op='PCUBE-fine', bins=125, single_event_bins=int((expf == 1).sum()), empty_bins=int((expf == 0).sum())), nontrivial=bool((expf == 1).any()))
+        if not numpy.array_equal(cfine['COUNTS'].astype(int), expf):
+            j = int(numpy.where(cfine['COUNTS'].astype(int) != expf)[0][0])
+            chk.fail('impl', 'PCUBE with 125 bins over 8–13 keV: bin %d (%.3f–%.3f keV) reports %d counts, %d events have their energy there' % (
+                j, ef[j], ef[j + 1], cfine['COUNTS'][j], expf[j]), dict(oracle='PCUBE-fine', bin=j))
+        for col in ('COUNTS', 'I', 'Q', 'U', 'W2'):
+            if abs(cfine[col].sum() - cone[col][0]) > 2e-5 * max(1., abs(cone[col][0]), numpy.abs(cfine[col]).sum()):
+                chk.fail('impl', 'PCUBE: %s summed over 125 adjacent bins = %.6f, merged bin = %.6f' % (col, cfine[col].sum(), cone[col][0]), dict(oracle='PCUBE-fine-merge', column=col))
         # EQP: same edges through LIST must give the same cube; all energies inside [emin, emax] (pre-selected file) and not
         for inside in (None, (2., 8.)):
             p2 = build_file(g, d, n=900, name='eqp%s.fits' % ('in' if inside else ''), energy_inside=inside)
@@ -213,8 +228,8 @@ def explore(chk, budget=1):
             if abs(ce['COUNTS'].sum() - ((c2['energy'] > edges[0]) & (c2['energy'] <= edges[-1])).sum()) > 0:
                 chk.fail('impl', 'EQP cube loses events: Σ COUNTS %d' % ce['COUNTS'].sum(), dict(oracle='PCUBE-EQP-total', edges=edges))
         # ---------------------------------------------------------------- map cubes: totals
-        for alg in ('PMAPCUBE', 'MDPMAPCUBE'):
-            o = xpbin(path, alg, '--npix', 30, '--pixsize', 30., '--ebinalg', 'LIST', '--ebinning', '[2.01, 3.99, 7.97]')
+        for alg, mcflag in (('PMAPCUBE', False), ('MDPMAPCUBE', False), ('PMAPCUBE', True), ('MDPMAPCUBE', True)):
+            o = xpbin(path, alg, '--npix', 30, '--pixsize', 30., '--ebinalg', 'LIST', '--ebinning', '[2.01, 3.99, 7.97]', '--mc', str(mcflag))
             with fits.open(o) as h:
                 cnt = numpy.array(h['COUNTS'].data, dtype=float)
                 hw = awcs.WCS(h[0].header).celestial if h[0].header.get('NAXIS', 0) else awcs.WCS(h['COUNTS'].header).celestial
@@ -222,11 +237,12 @@ def explore(chk, budget=1):
             w = xEventBinningBase._build_image_wcs(**kw)
             pix = w.wcs_world2pix(numpy.vstack((c['ra'], c['dec'])).transpose(), 0)
             inimg = (pix[:, 0] > -0.5) & (pix[:, 0] < 29.5) & (pix[:, 1] > -0.5) & (pix[:, 1] < 29.5)
-            per_layer = [int((inimg & (c['energy'] > a) & (c['energy'] < b)).sum()) for a, b in ((2.01, 3.99), (3.99, 7.97))]
-            chk.case(dict(op=alg, per_layer=per_layer), nontrivial=True)
+            en = c['mc_energy'] if mcflag else c['energy']          # `--mc True`: the layer of an event is that of its true energy
+            per_layer = [int((inimg & (en > a) & (en < b)).sum()) for a, b in ((2.01, 3.99), (3.99, 7.97))]
+            chk.case(dict(op=alg, mc=mcflag, per_layer=per_layer), nontrivial=True)
             got = [int(round(cnt[i].sum())) for i in range(cnt.shape[0])]
             if got != per_layer:
-                chk.fail('impl', '%s: COUNTS per energy layer %s, events inside image and layer %s' % (alg, got, per_layer), dict(oracle=alg))
+                chk.fail('impl', '%s (mc=%s): COUNTS per energy layer %s, events inside image and layer %s' % (alg, mcflag, got, per_layer), dict(oracle=alg, mc=mcflag))
     replies = drv.run()
     for desc, impl, k, build in jobs:
         idx = [int(x) for x in replies[k].split()]
